@@ -10,6 +10,7 @@ RULE = ('exhaustive: every series over {-2..2} up to length 6 (quick) / 7 (thoro
 TRUSTED = [
     'Coq 8.16.1 kernel + vm_compute',
     'model coq/model/M_peaks.v: zero_crossings = filter by a local test + the pruning loop as coded; switched_peaks = the loop of the code over the C11 peak list; tie = exhaustive + random correspondence (model/K_peaks.v)',
+    'literal statement-by-statement transcription coq/model/M_peaks_pipeline.v of get_zero_crossings_array_indices (numpy pipeline and the tol > 0 loop with its rem_i list / np.delete) and of get_switched_peak_array_indices (the Python loop with its lists and _argmax_abs_w_sign), PROVED equal to zero_crossings keep tol (every non-empty series, every tol) and to switched_peaks tol (every non-constant series, every tol) over R and over Q (props/Prop_C11_pipeline.v); the same cases are also compared with it (chk_zc_pipeline, chk_sp_pipeline), so what remains trusted is reading the transcription against the Python source',
     'float products that underflow are outside every generator',
     'Python harness',
 ]
@@ -23,6 +24,7 @@ def nontrivial(xs):
 def run(rep, rng, tier):
     from eqsig.fns.peaks_and_crossings import get_zero_crossings_array_indices as zc, get_switched_peak_array_indices as sp
     rep.prove('Prop_C12')
+    rep.prove('Prop_C11_pipeline')
     zcs, sps, subs = [], [], []
 
     def add_zc(xs, keep, tol):
@@ -107,6 +109,15 @@ def run(rep, rng, tier):
     rep.correspond('model.K_peaks', 'chk_zc', zcs, max_cases=4000)
     rep.correspond('model.K_peaks', 'chk_sp', sps, max_cases=4000)
     rep.correspond('model.K_peaks', 'chk_subseq', subs, max_cases=4000)
+    # the same cases against the literal transcription of the code (model/M_peaks_pipeline.v: the numpy pipeline of the zero
+    # crossings with its tolerance loop, the Python loop of the switched peaks), proved equal to the model in Prop_C11_pipeline
+    def as_pipeline(cases):
+        return [Case(c.coq, c.replay, c.site, nontrivial=c.nontrivial, klass=c.klass + '/pipeline') for c in cases]
+    # (the two checkers provably agree - C12_zc_pipeline_checkers_agree, C12_sp_pipeline_checkers_agree - so this is a cross-check of
+    # the transcription against the code; the thorough tier takes every second case to stay within its time budget)
+    step = 1 if tier == 'quick' else 2
+    rep.correspond('model.K_peaks', 'chk_zc_pipeline', as_pipeline(zcs[::step]), max_cases=4000)
+    rep.correspond('model.K_peaks', 'chk_sp_pipeline', as_pipeline(sps[::step]), max_cases=4000)
 
 
 def finish(rep):
